@@ -87,3 +87,42 @@ def small_len(rng, lo, hi):
     if r < 0.85:
         return rng.randint(lo, min(hi, 80))
     return rng.randint(lo, hi)
+
+
+def all_series(levels, minlen, maxlen, nonconstant=True):
+    """every sequence over the given levels with minlen <= length <= maxlen"""
+    import itertools
+    for n in range(minlen, maxlen + 1):
+        for t in itertools.product(levels, repeat=n):
+            if nonconstant and len(set(t)) == 1:
+                continue
+            yield t
+
+
+def plateau_series(rng, n, levels=5, p_flat=0.4, offset=0):
+    v, cur = [], rng.randint(-levels, levels)
+    for _ in range(n):
+        if rng.random() > p_flat:
+            cur = rng.randint(-levels, levels)
+        v.append(cur + offset)
+    if len(set(v)) == 1:
+        v[-1] += 1
+    return v
+
+
+def excursion_series(rng, n):
+    """series with several levels per excursion (>=3 distinct magnitudes between sign changes), occasional zeros"""
+    v, sign = [], rng.choice([-1, 1])
+    while len(v) < n:
+        m = rng.randint(1, 7)
+        for _ in range(m):
+            v.append(sign * rng.randint(1, 9))
+        r = rng.random()
+        if r < 0.25:
+            v.extend([0] * rng.randint(1, 3))
+        if r < 0.85:
+            sign = -sign
+    v = v[:n]
+    if len(set(v)) == 1:
+        v[-1] += 1
+    return v
